@@ -91,6 +91,68 @@ def _local_families():
                     lambda p: cirq.ZPowGate(exponent=p["e"], dimension=p["d"]), qudit=True, shape_of=lambda p: (p["d"],)))
 
 
+    G._reg(G.Family("PauliSingleton", 1, st.fixed_dictionaries({"p": st.sampled_from("XYZ")}), lambda p: getattr(cirq, p["p"]),
+                    tags=frozenset({"fastpath", "pauli"})))
+    G._reg(G.Family("StatePrep", None, st.integers(1, 2).flatmap(lambda n: st.fixed_dictionaries(
+        {"n": st.just(n), "v": st.lists(G.small_floats(), min_size=2 * 2 ** n, max_size=2 * 2 ** n)})),
+        lambda p: cirq.StatePreparationChannel(L.state_from_floats(p["v"], 2 ** p["n"])), arity_of=lambda p: p["n"], **ch))
+    G._reg(G.Family("BooleanHamiltonian", None, st.fixed_dictionaries({"i": st.integers(0, len(_BOOL_EXPRS) - 1), "theta": G.rads()}),
+                    lambda p: cirq.BooleanHamiltonianGate(list(_BOOL_EXPRS[p["i"] % len(_BOOL_EXPRS)][0]),
+                                                          list(_BOOL_EXPRS[p["i"] % len(_BOOL_EXPRS)][1]), p["theta"]),
+                    arity_of=lambda p: len(_BOOL_EXPRS[p["i"] % len(_BOOL_EXPRS)][0]), tags=frozenset({"diag"})))
+
+
+    G._reg(G.Family("AncillaCZPow", 2, st.fixed_dictionaries({"e": G.exponents()}), lambda p: AncillaCZPow(p["e"])))
+
+
+_AncillaCZPow = None
+
+
+def AncillaCZPow(e):
+    """Harness-defined gate (documented extension point `_decompose_with_context_` + qubit manager): CZ**e between its two
+    qubits, implemented through a clean ancilla: CNOT(c, a); CZ**e(a, t); CNOT(c, a).  Exercises the ancilla branches of
+    unitary / apply_unitary / act_on.  ``vf_reference`` is the textbook matrix (not read from Cirq)."""
+    global _AncillaCZPow
+    if _AncillaCZPow is None:
+        import cirq
+
+        class _G(cirq.Gate):
+            def __init__(self, e):
+                self.e = e
+                self.vf_reference = np.diag([1, 1, 1, np.exp(1j * np.pi * e)])
+
+            def _num_qubits_(self):
+                return 2
+
+            def _decompose_with_context_(self, qubits, context):
+                c, t = qubits
+                (a,) = context.qubit_manager.qalloc(1)
+                yield cirq.CNOT(c, a)
+                yield (cirq.CZ ** self.e).on(a, t)
+                yield cirq.CNOT(c, a)
+                context.qubit_manager.qfree([a])
+
+            def _value_equality_values_(self):
+                return self.e
+
+            def __eq__(self, o):
+                return isinstance(o, _G) and o.e == self.e
+
+            def __hash__(self):
+                return hash(("AncillaCZPow", self.e))
+
+            def __repr__(self):
+                return f"AncillaCZPow({self.e})"
+
+        _AncillaCZPow = _G
+    return _AncillaCZPow(e)
+
+
+_BOOL_EXPRS = [(("x0",), ("x0",)), (("x0", "x1"), ("x0 ^ x1",)), (("x0", "x1"), ("x0 & x1",)), (("x1", "x0"), ("x0 | x1",)),
+               (("x0", "x1", "x2"), ("(x0 | x1) & x2",)), (("x0", "x1", "x2"), ("x0 ^ x2", "x1 & x2")),
+               (("x2", "x0", "x1"), ("x0 & x1 & x2",))]
+
+
 def families(pred):
     _local_families()
     return G.families(pred)
@@ -293,7 +355,8 @@ def build(recipe) -> Built:
     b.base_gate = gate
     # --- base reference: the bare gate's matrices (C03 territory) laid over the given qubits
     if fam.unitary:
-        ref = Ref.of_unitary(qs, cirq.unitary(gate))
+        known = getattr(gate, "vf_reference", None)
+        ref = Ref.of_unitary(qs, cirq.unitary(gate) if known is None else known)
     elif fam.name in MIXTURE_CHANNELS:
         ref = Ref.of_mixture(qs, cirq.mixture(gate))
     else:
@@ -459,10 +522,17 @@ def build(recipe) -> Built:
                     ops = [op, cirq.CNOT(oq[1], oq[0])]
                     inner = compose(ref, e_ref)
             fc = cirq.FrozenCircuit(*ops)
-            if reps < 0 and cirq.inverse(fc.unfreeze(), None) is None:
+            if reps < 0:
                 # documented ValueError: "Negative repetitions on non-invertible circuit"
-                b.skipped.append("circ:not_invertible")
-                reps = -reps
+                try:
+                    invertible = cirq.inverse(fc.unfreeze(), None) is not None
+                except ValueError as e:
+                    if "not invertible" not in str(e):
+                        raise
+                    invertible = False
+                if not invertible:
+                    b.skipped.append("circ:not_invertible")
+                    reps = -reps
             if w.get("ids"):
                 new = cirq.CircuitOperation(fc, repetitions=reps, use_repetition_ids=True)
             elif w.get("rp") and reps != 1:
